@@ -500,7 +500,59 @@ def race_cmds(rng, tier):
     cmds.append((["-I", "--records-per-batch", "1", "put", "$z = NR", "then", "sort", "-nr", "z", "ip1.dkvp", "ip2.dkvp"], "",
                  {"ip1.dkvp": med, "ip2.dkvp": med}))
     cmds.append((["--records-per-batch", "2", "--ojson", "put", "-q", 'emit1 {"a": $a}; dump > "d.out", {"i": $i}; printn > "pn.out", $id'], med, {}))
+    # callbacks of the same name in two puts (process-global HOF cache), backward sliding window then a mutating put,
+    # nest then put on wide records, step ewma/shift_lead then sort
+    cmds.append((["--records-per-batch", "1", "put", "func f(a) {return a . \"x\"} $p = apply([$a, $b], f)[1]", "then", "put",
+                  "func f(a) {return a . \"y\"} $q = apply([$a], f)[1]; $r = sort([$i, 3, 1], func(a,b) {return b <=> a})[1]"], med, {}))
+    cmds.append((["--records-per-batch", "1", "--ojson", "--jvquoteall", "step", "-a", "slwin_2_2,shift_lead,ewma", "-d", "0.1,0.9", "-f", "i,x", "then", "put", "$i = \"abc\"; unset $x"], med, {}))
+    cmds.append((["--records-per-batch", "2", "nest", "--explode", "--values", "--across-records", "-f", "a", "--nested-fs", "e", "then", "put", "$a = $a . \"!\"", "then",
+                  "count-similar", "-g", "a", "then", "fill-down", "-a", "-f", "b"], big, {}))
+    cmds.append((["--records-per-batch", "1", "repeat", "-n", "3", "then", "put", "$i = NR", "then", "sec2gmt", "i", "then", "uniq", "-g", "id,i"], med, {}))
+    cmds.append((["--records-per-batch", "2", "--icsv", "--opprint", "--barred", "cat", "then", "sort-within-records", "-r", "then", "unsparsify"],
+                 gen.csv_simple([[("id", f"r{k}"), ("a", "x"), ("b", str(k))] for k in range(700)]), {}))
     return cmds
+
+
+def regression_corpus_race(chk):
+    """Thorough tier: Miller's own regression corpus (4790 cases: every verb and DSL feature at least once) under the race
+    binary, from a scratch copy of /repo/test so that cases which write files never touch /repo."""
+    import shutil
+    import subprocess
+    import tempfile
+    d = tempfile.mkdtemp(prefix="vf-regrace-", dir=R.SCRATCH_ROOT)
+    try:
+        subprocess.run(["rsync", "-a", os.path.join(build.REPO, "test"), d + "/repo/"], check=True)
+        shutil.copy(build.binpath("mlr-race"), d + "/repo/mlr")
+        dirs = sorted(os.listdir(d + "/repo/test/cases"))
+        logs = d + "/race"
+        os.makedirs(logs)
+        env = dict(R.BASE_ENV, PATH=d + "/repo:" + R.BASE_ENV["PATH"], HOME=d,
+                   GORACE=f"halt_on_error=0 atexit_sleep_ms=0 log_path={logs}/r")
+        procs = []
+        nshards = 16
+        for k in range(nshards):
+            shard = ["test/cases/" + x for x in dirs[k::nshards]]
+            procs.append(subprocess.Popen([d + "/repo/mlr", "regtest", "-m", d + "/repo/mlr"] + shard, cwd=d + "/repo", env=env,
+                                          stdout=subprocess.DEVNULL, stderr=subprocess.DEVNULL))
+        for p in procs:
+            p.wait(timeout=3600)
+        n = 0
+        reports = []
+        for fn in os.listdir(logs):
+            txt = open(os.path.join(logs, fn), errors="replace").read()
+            for b in txt.split("WARNING: DATA RACE")[1:]:
+                if "github.com/johnkerl/miller" in b:
+                    reports.append(b[:4000])
+        chk.extra["regression_corpus_under_race_detector"] = {"case_directories": len(dirs), "race_reports": len(reports)}
+        import re
+        for b in reports:
+            top = re.findall(r"^\s+(github\.com/johnkerl/miller/v6/\S+?)\(", b, re.M)[:2]
+            pair = "|".join(sorted(set(t.replace("github.com/johnkerl/miller/v6/pkg/", "") for t in top)))
+            chk.add_violation({"kind": "data-race", "pair": pair, "where": "regression-corpus"},
+                              f"data race reported while running Miller's regression corpus under the race detector ({pair})", {"report": b})
+        chk.evaluations += len(dirs)
+    finally:
+        shutil.rmtree(d, ignore_errors=True)
 
 
 def race_case(case):
@@ -760,6 +812,8 @@ def run(chk):
                 sched = "" if s == 0 else f"{rng.randint(1, 10**6)}:{[300, 2000][s % 2]}"
                 cases.append({"argv": argv, "stdin": inp, "files": files, "sched": sched, "idx": idx})
         chk.pmap(race_case, cases, label="d race")
+        if not q:
+            regression_corpus_race(chk)
     if not only or "e" in only:
         n = 40 if q else 500
         chk.pmap(stream_case, [{"seed": f"{chk.seed}/e/{i}"} for i in range(n)], label="e streaming")
